@@ -68,7 +68,7 @@ static std::string run_case(const Case& cs, long* iterations_out = nullptr, long
         size_t tot = 0; for (size_t n : r.nodes) tot += n; if (P.pts.size() != 3 * tot) { snprintf(buf, sizeof buf, "file-%u-has-%zu-points-but-the-population-had-%zu-nodes", k, P.pts.size() / 3, tot); return buf; }
         auto& idf = P.fields["cell_id"]; auto& tyf = P.fields["cell_type_id"]; if (idf.size() != r.ids.size() || tyf.size() != r.ids.size()) return "file-" + std::to_string(k) + "-cell_id-or-cell_type_id-array-missing";
         for (size_t i = 0; i < r.ids.size(); i++) if (atol(idf[i].c_str()) != (long)r.ids[i] || atol(tyf[i].c_str()) != r.types[i]) { snprintf(buf, sizeof buf, "file-%u-cell-%zu-id-or-type-differs: id %s type %s expected %u %d", k, i, idf[i].c_str(), tyf[i].c_str(), r.ids[i], r.types[i]); return buf; }
-        vtk::Parsed PF; std::string e2 = vtk::tokenize(out + "/face_data/result_" + std::to_string(k) + ".vtk", PF, false); if (e2.rfind("unexpected-trailing-content", 0) != 0 && !e2.empty()) return "face-data-file-" + std::to_string(k) + "-malformed-" + e2;
+        vtk::Parsed PF; std::string e2 = vtk::tokenize(out + "/face_data/result_" + std::to_string(k) + ".vtk", PF, false); if (!e2.empty()) return "face-data-file-" + std::to_string(k) + "-malformed-" + e2;
         // the face-data file names, for every triangle, the cell that owns it: by its persistent id, in the order of the population
         { size_t totf = 0; for (size_t n : r.faces) totf += n; if (PF.cells.size() != totf) { snprintf(buf, sizeof buf, "face-file-%u-describes-%zu-triangles-but-the-population-had-%zu", k, PF.cells.size(), totf); return buf; }
           std::ifstream ff(out + "/face_data/result_" + std::to_string(k) + ".vtk"); std::vector<std::string> tk; std::string w; while (ff >> w) tk.push_back(w); size_t at = 0; while (at < tk.size() && tk[at] != "face_cell_id") at++;
